@@ -664,6 +664,22 @@ def p_array(itp, name, args, kw, node, st):
         r = n.copy()
     if r.shape == () and isinstance(v, (Tup, SeqV)):
         r.shape = (Aff(len(v.items)),) if isinstance(v, Tup) else (None,)
+    if itp.d4 and isinstance(v, Tup) and v.items:
+        from . import charge as Q
+        qs = [getattr(N(it), 'q', None) for it in v.items]
+        if all(isinstance(q_, Aff) or q_ == 'any' for q_ in qs):
+            known = [(i, q_) for i, q_ in enumerate(qs) if q_ != 'any']
+            if not known:
+                r.q = 'any'
+            elif len(known) == 1:
+                r.q = ('partial', {Aff(known[0][0]): known[0][1]}) if len(qs) > 1 else known[0][1]
+            else:
+                (i0, q0), (i1, q1) = known[0], known[1]
+                alpha = (q1 - q0).scale(F(1, i1 - i0))
+                if alpha.is_const() and all(Q.q_eq(q_, q0 + Aff(alpha.c * (i - i0))) for i, q_ in known):
+                    r.q = Q.lin(alpha.c, q0 - Aff(alpha.c * i0))
+                else:
+                    r.q = None
     c = _dtype_cplx(dt, None)
     if c is not None:
         r.cplx = c
@@ -793,18 +809,30 @@ def p_concat(itp, name, args, kw, node, st):
         for p in parts:
             n = N(p)
             pq = n.q
+            ln = Aff(1) if n.shape == () else (n.shape[0] if n.shape else None)
             if pq is None or off is None:
                 cur = None
                 break
             if pq != 'any':
-                if Q.is_lin(pq):
-                    pq = Q.lin(pq[1], pq[2] - off.scale(pq[1]))
-                cur = Q.q_same(itp, cur, pq, node, 'concat')
-                if cur is None:
-                    break
-            ln = Aff(1) if n.shape == () else (n.shape[0] if n.shape else None)
+                single = ln is not None and ln == Aff(1) and isinstance(pq, Aff)
+                if single:
+                    piece = ('partial', {off: pq})
+                elif Q.is_lin(pq):
+                    piece = Q.lin(pq[1], pq[2] - off.scale(pq[1]))
+                else:
+                    piece = pq
+                if cur == 'any':
+                    cur = piece
+                else:
+                    before = len(itp.conflicts)
+                    cur = Q.q_same(itp, cur, piece, node, 'concat')
+                    if cur is None:
+                        if len(itp.conflicts) == before and (isinstance(piece, tuple) and piece[0] == 'partial' or
+                                                             isinstance(cur, tuple)):
+                            itp.conflict('concat', 'q', 'parts of the concatenation carry inconsistent modulation charges', node)
+                        break
             off = (off + ln) if ln is not None else None
-        r.q = cur if cur != 'any' else 'any'
+        r.q = cur
     segs = [p.seg if isinstance(p, Num) else None for p in parts]
     if all(sg is not None for sg in segs):
         from . import segmap
@@ -938,6 +966,8 @@ def p_bilinear(itp, name, args, kw, node, st):
             if Q.is_lin(r.q):
                 itp.conflict('add', 'q', 'inner product over elements whose modulation charge depends on the index (%s)' % Q.show(r.q), node)
                 r.q = None
+        elif base in ('dot', 'vdot', 'inner') and (a.shape == () or b.shape == ()):
+            pass            # scalar times array: plain product
         elif base not in ('multiply',):
             r.q = None
     sa, sb = a.shape, b.shape
